@@ -11,6 +11,7 @@ package main
 // a scripted http.RoundTripper).
 
 import (
+	"strconv"
 	"bytes"
 	"fmt"
 	"hash/fnv"
@@ -73,6 +74,10 @@ type c16Src struct {
 	typ     string // sample type name; "" = a profile without sample types (and without samples)
 	samples []c16KV
 	comment string // distinct per source: the merged profile's Comments list the contributors in merge order
+	tmd      bool // part of a timed case; sec/tmo repeat the case's -seconds / -timeout for the runner
+	sec, tmo int
+	urlSec  string // round 6 (timed cases): "?seconds=<urlSec>" appended to the address ("" = none)
+	delayMs int    // round 6: the local server answers after this many milliseconds
 	unit    string // unit of the sample type ("" = "count"); round-5 header streams use time units
 	dst     string // Profile.DefaultSampleType
 	drop    string // Profile.DropFrames (end-to-end streams: "", a pattern matching no frame, or a non-RE2 pattern)
@@ -86,6 +91,8 @@ type c16Case struct {
 	fetch       bool // drive fetchProfiles (base subtraction included) instead of grabSourcesAndBases
 	// end-to-end layer (c16_e2e.go): drive driver.PProf.  srcs/bases are then TABLES of distinct source
 	// names; args[g] lists, by table index, what the command line names (repeats allowed).
+	timed            bool // round 6: run with explicit source.Seconds / source.Timeout, record the client deadline
+	seconds, timeout int
 	e2e       int // 0 = off, else c16E2E* (which entry point / output is used)
 	args      [2][]int
 	diffBase  bool // -diff_base instead of -base
@@ -187,6 +194,7 @@ type c16Env struct {
 	errs  []string
 	calls map[string]int
 	byPath map[string]string // "/s3" -> address, for the sources served by the local servers
+	allow         map[string]time.Duration // round 6: address -> time the client allowed the request
 	notConcurrent string    // end-to-end streams: set when the fetches of the run were not all in flight together
 	lines         []string  // interactive session: what ReadLine hands out
 }
@@ -298,6 +306,8 @@ func c16ErrCode(msg string) string {
 		return "http"
 	case strings.HasPrefix(msg, "http fetch:") && strings.Contains(msg, "x509:"):
 		return "tls"
+	case strings.HasPrefix(msg, "http fetch:") && (strings.Contains(msg, "Client.Timeout exceeded") || strings.Contains(msg, "context deadline exceeded")):
+		return "timeout"
 	}
 	return "other:" + msg
 }
@@ -314,12 +324,19 @@ func c16Run(cs c16Case) (obs Term) {
 	for grp, l := range [2][]c16Src{cs.srcs, cs.bases} {
 		for i, s := range l {
 			a := c16Addr(grp, i, s.kind)
+			if s.urlSec != "" {
+				a += "?seconds=" + s.urlSec
+			}
 			addrs[grp] = append(addrs[grp], a)
 			index[a] = c16Ev{grp, i}
 			env.gates[a] = &c16Gate{arrived: make(chan struct{}), release: make(chan struct{}), returned: make(chan struct{})}
 			env.srcOf[a] = s
 			if c16KindTransport(s.kind) {
-				env.byPath[a[strings.LastIndex(a, "/"):]] = a
+				path := a[strings.LastIndex(a, "/"):]
+				if k := strings.Index(path, "?"); k >= 0 {
+					path = path[:k]
+				}
+				env.byPath[path] = a
 			}
 			switch s.kind {
 			case kFileOK:
@@ -415,7 +432,11 @@ func c16Run(cs c16Case) (obs Term) {
 			p, err = driver.VerifC16Fetch(addrs[0], addrs[1], false,
 				&plugin.Options{Fetch: env, Sym: c16Sym{}, Obj: c16Obj{}, UI: env, HTTPTransport: rt})
 		} else {
-			p, pb, _, _, save, err = driver.VerifC16Grab(addrs[0], addrs[1], env, c16Obj{}, env, rt)
+			if cs.timed {
+				p, pb, _, _, save, err = driver.VerifC16GrabT(addrs[0], addrs[1], cs.seconds, cs.timeout, env, c16Obj{}, env, rt)
+			} else {
+				p, pb, _, _, save, err = driver.VerifC16Grab(addrs[0], addrs[1], env, c16Obj{}, env, rt)
+			}
 		}
 	}()
 	close(finished)
@@ -484,6 +505,13 @@ func c16Run(cs c16Case) (obs Term) {
 			multi = append(multi, fmt.Sprintf("%s x%d", a, n))
 		}
 	}
+	if cs.timed {
+		// how long the http.Client allowed each request (deadline seen by the transport), in half seconds
+		for a, d := range env.allow {
+			ev := index[a]
+			multi = append(multi, fmt.Sprintf("allow %d:%d=%d", ev.grp, ev.idx, (d+250*time.Millisecond)/(500*time.Millisecond)))
+		}
+	}
 	env.mu.Unlock()
 	sort.Strings(multi)
 	return L(S(status), c16ObsProfile(p), c16ObsProfile(pb), Bool(save), L(el[0]...), L(el[1]...), L(tail...), Ss(multi))
@@ -493,7 +521,7 @@ func c16Run(cs c16Case) (obs Term) {
 // (coq/R_C16.v plain_prof) rebuilds the profile from the position.
 func c16IsPlain(s c16Src, i, grp int) bool {
 	q := c16Plain(i, grp, true)
-	if s.unit != "" || s.dst != "" || s.drop != "" || s.typ != q.typ || len(s.samples) != len(q.samples) || s.comment != fmt.Sprintf("c%d:%d", grp, i) {
+	if s.tmd || s.unit != "" || s.dst != "" || s.drop != "" || s.typ != q.typ || len(s.samples) != len(q.samples) || s.comment != fmt.Sprintf("c%d:%d", grp, i) {
 		return false
 	}
 	for j := range s.samples {
@@ -519,6 +547,15 @@ func c16SrcTerm(s c16Src) Term {
 	cm := []string{}
 	if s.comment != "" {
 		cm = append(cm, s.comment)
+	}
+	if s.tmd {
+		us := int64(1000000001) // no seconds= parameter
+		if n, err := strconv.Atoi(s.urlSec); err == nil && s.urlSec != "" {
+			us = int64(n)
+		} else if s.urlSec != "" {
+			us = 1000000002 // present but not a number
+		}
+		return L(ZI(s.kind), S(s.typ), L(kv...), Ss(cm), S(s.drop), ZI(c16UnitCode(s.unit)), S(s.dst), Z(us), ZI(s.delayMs), ZI(s.sec), ZI(s.tmo))
 	}
 	if s.unit != "" || s.dst != "" {
 		return L(ZI(s.kind), S(s.typ), L(kv...), Ss(cm), S(s.drop), ZI(c16UnitCode(s.unit)), S(s.dst))
@@ -952,6 +989,7 @@ func runC16(c *Ctx) {
 	c.c16TransportStreams()
 	c.c16E2EStreams()
 	c.c16HeaderStreams()
+	c.c16DeadlineStreams()
 	c.c16Flush()
 	c.Extra["controller_stalls"] = c16Stalls
 }
